@@ -75,10 +75,10 @@ theorem gnSels_map (hφ : ∀ n x, φ (down n x) = down' n (φ x)) : ∀ (ss : L
 end
 
 theorem gnVarDef_map (hφ : ∀ n x, φ (down n x) = down' n (φ x)) (v : VarDef) (x : X) : pmap φ (gnVarDef down x v) = gnVarDef down' (φ x) v := by
-  rw [gnVarDef, gnVarDef, pmap_cons, pmap_append, hφ]
+  rw [gnVarDef, gnVarDef, pmap_cons, pmap_append, pmap_cons, gnDirs_map φ down down' hφ, hφ, hφ]
   cases v.default with
   | none => simp [pmap, hφ]
-  | some dv => simp only [gnValue_map φ down down' hφ]; simp [pmap, hφ]
+  | some dv => simp only [gnValue_map φ down down' hφ, hφ]
 
 theorem gnDef_map (hφ : ∀ n x, φ (down n x) = down' n (φ x)) (d : Def) (x : X) : pmap φ (gnDef down x d) = gnDef down' (φ x) d := by
   cases d with
